@@ -92,6 +92,24 @@ def _lit(v):
     return repr(v)
 
 
+# frame guard: (name, params, body, modifies, loops, must_hold) - `modifies` is a CHECKED frame: a body that writes outside it must fail a frame obligation
+from .ty import Obj  # noqa: E402
+_BOX = Obj("Box", n=Int, items=List(Int), tag=Str)
+FRAME_CASES = [
+    ("fr_append_outside", dict(x=List(Int)), "x.append(1)", [], {}, False),
+    ("fr_append_inside", dict(x=List(Int)), "x.append(1)", ["x"], {}, True),
+    ("fr_field_outside", dict(b=_BOX), "b.n = b.n + 1", [], {}, False),
+    ("fr_field_inside", dict(b=_BOX), "b.n = b.n + 1", ["b.n"], {}, True),
+    ("fr_other_field", dict(b=_BOX), "b.n = 0\n    b.tag = 'x'", ["b.n"], {}, False),
+    ("fr_write_back_same", dict(b=_BOX), "t = b.n\n    b.n = 5\n    b.n = t", [], {}, True),
+    ("fr_nested_outside", dict(b=_BOX), "b.items.append(2)", ["b.n"], {}, False),
+    ("fr_nested_inside", dict(b=_BOX), "b.items.append(2)", ["b.items"], {}, True),
+    ("fr_whole_object", dict(b=_BOX), "b.items.append(2)\n    b.n = 1", ["b"], {}, True),
+    ("fr_on_raise", dict(b=_BOX), "b.n = 1\n    raise ValueError()", [], {}, False),
+    ("fr_loop_precise", dict(b=_BOX, xs=Seq(Int)), "for v in xs:\n        b.items.append(v)", ["b.items"], {"for#1": dict(invariant={"t": "True"}, havoc_only=[], havoc_exprs=["b.items"])}, True),
+]
+
+
 def _typed_eq(name, v):
     if isinstance(v, list):
         return "len(%s) == %d" % (name, len(v)) + "".join(" and %s[%d] == %s" % (name, i, _lit(e)) for i, e in enumerate(v))
@@ -182,6 +200,23 @@ def run(verbose=False):
                     unsupported.append((name, str(e)[:80]))
                 except Exception as e:  # noqa
                     bad.append((name, inp, "%s: %s" % (type(e).__name__, str(e)[:120])))
+        # ---- frame guard
+        fsrc = "\n\n".join("def %s(%s):\n    %s\n" % (nm, ", ".join(ps), body) for nm, ps, body, _m, _l, _h in FRAME_CASES)
+        open(os.path.join(d, "conf", "frames.py"), "w").write(fsrc)
+        for nm, ps, body, mods, loops, must_hold in FRAME_CASES:
+            n += 1
+            try:
+                c = C.Contract("conf/frames.py::" + nm, "SELFTEST", params=ps, modifies=mods, loops=loops, raises={"ValueError": True}, ensures={"t": "True"})
+                c.key = c.target
+                obs = verify.FnVerifier(c, d).generate(budget_s=60)
+                fr = [ob for ob in obs if ob.kind == "frame"]
+                open_ = [ob for ob in fr if solve.solve_one(ob, timeout_ms=5000).verdict != "discharged"]
+                if must_hold and open_:
+                    bad.append((nm, mods, "frame obligation %s fails although the body stays inside `modifies`" % open_[0].name.split("/")[-1][:60]))
+                if not must_hold and not any(ob.verdict == "refuted" for ob in fr):
+                    bad.append((nm, mods, "the body writes outside `modifies` but no frame obligation is refuted"))
+            except Exception as e:  # noqa
+                bad.append((nm, mods, "%s: %s" % (type(e).__name__, str(e)[:120])))
     finally:
         import shutil
 
